@@ -23,33 +23,39 @@ def run_sources(rep, crate, cfg):
         adt = c04.struct_of_self(f)
         i_sbn = c04.field_by_type(crate, adt, lambda fl: fl["ty"]["s"] == "u8")
         i_src = c04.field_by_type(crate, adt, lambda fl: fl["ty"].get("adt", "").endswith("Vec"))
-        # range 0..len mapped through a closure
-        rt = N(terms.TermBuilder(f).return_term())
+        # the returned vector in comprehension normal form (loop + push and iterator chains give the same segments)
+        from .. import seqs
         SELF = ("deref", P(1))
-        LEN = ("call", "std::vec::Vec::<T, A>::len", (("ref", ("field", SELF, i_src)),))
-        rng = ("agg", "adt:std::ops::Range", (("const", 0), LEN))
-        okr = terms.find(rng, rt) is not None and rt[0] == "call" and rt[1].endswith("Iterator::collect")
-        rep.check(okr, R, f.key, "range-0-K", f.loc(), "source packets are produced for i in 0..K (K = number of source symbols), in order",
-                  {"term": fmt(rt)[:200]}, cfg)
-        cl = [g for k, g in crate.fns.items() if k.startswith(f.key + "::{closure")]
+        SRC = ("field", SELF, i_src)
+        segs, problems = seqs.returned_segments(crate, f, lambda ls: (lambda blk: dec.conds_of(ls, blk)))
+        segs = [seqs.norm_seg(g) for g in segs]
+        IX = seqs.IX
+        det = {"segments": [{"count": fmt(g["count"])[:80], "value": fmt(g["value"])[:200], "cond": fmt(g["cond"])[:80] if g["cond"] else None}
+                            for g in segs], "problems": problems}
+        okr = not problems and len(segs) == 1 and segs[0]["count"] == ("len", SRC) and segs[0]["cond"] is None
+        rep.check(okr, R, f.key, "range-0-K", f.loc(), "source packets are produced for i in 0..K (K = number of source symbols), in order, none skipped",
+                  det, cfg)
         okc = False
-        for g in cl:
-            def sink(ct, t):
-                if ct[0] == "call" and isinstance(ct[1], str) and (ct[1].endswith("PayloadId::new") or ct[1].endswith("EncodingPacket::new")):
-                    return ct[1].split("::")[-2]
-                return None
-            ls = loops.LoopSummary(g, sink)
-            ENV = ("deref", ("field", ("deref", P(1)), 0))
-            pid = [e for e in ls.events if e["sink"] == "PayloadId"]
-            pk = [e for e in ls.events if e["sink"] == "EncodingPacket"]
-            if len(pid) == 1 and len(pk) == 1:
-                a = [N(x) for x in pid[0]["args"]]
-                d = N(pk[0]["args"][1])
-                idx = terms.find(("call", "std::ops::Index::index", (V("v"), P(2))), d)
-                okc = a[0] == ("field", ENV, i_sbn) and a[1] == P(2) and idx is not None and \
-                    terms.find(("field", ENV, i_src), idx[0]["v"]) is not None and N(pk[0]["args"][0]) == N(("call", "base::PayloadId::new", tuple(pid[0]["args"])))
+        if okr:
+            v = segs[0]["value"]
+            m = match(("call", "base::EncodingPacket::new", (("call", "base::PayloadId::new", (V("sbn"), V("esi"))), V("data"))), v)
+            if m is not None:
+                data = m["data"]
+                sym = terms.find(("index", SRC, IX), data)
+                # the bytes are those of symbol ix: a chain of byte accessors / copies around source_symbols[ix]
+                accessors = True
+                x = data
+                while x != ("index", SRC, IX):
+                    if x[0] in ("ref", "deref", "deref*"):
+                        x = x[1]
+                    elif x[0] == "call" and isinstance(x[1], str) and x[1].split("::")[-1] in ("as_bytes", "to_vec", "clone", "to_owned", "into", "from", "index", "as_ref") and len(x[2]) >= 1:
+                        x = x[2][0]
+                    else:
+                        accessors = False
+                        break
+                okc = N(m["sbn"]) == ("field", SELF, i_sbn) and N(m["esi"]) == IX and sym is not None and accessors
         rep.check(okc, R, f.key, "source-packet-i", f.loc(),
-                  "source packet i carries (this block's number, ESI = i) and the bytes of source symbol i", None, cfg)
+                  "source packet i carries (this block's number, ESI = i) and the bytes of source symbol i", det, cfg)
 
 
 def run_order(rep, crate, cfg):
